@@ -50,6 +50,7 @@ Section FunInv.
   Hypothesis loc_notgn : forall v, wfr (Loc v) -> mem_str (ref_name f (Loc v)) gn = false.
   Variable fs : list func.     (* subroutines already added to the module (partially resolved) *)
   Hypothesis fs_glob : forall i s, In i (flat_map func_instrs fs) -> In (Unres s) (instr_uses i) -> mem_str s gn = true.
+  Variable G : vmap.           (* the module scope while the subroutine is read *)
 
   Notation hide := (hide f).
   Definition hb next gk (k : block) : block := mapb (map_refs (hide next gk)) k.
@@ -64,7 +65,8 @@ Section FunInv.
     f_nodup : NoDup (map fst (rs_pend st));
     f_legit : forall s, In s (map fst (rs_pend st)) ->
               exists r, wfr r /\ ref_name f r = s /\ known next gk r = false;
-    f_wf : forall i, In i (flat_map b_ins bs ++ is) -> Forall wfr (instr_uses i) }.
+    f_wf : forall i, In i (flat_map b_ins bs ++ is) -> Forall wfr (instr_uses i);
+    f_glob : rs_glob st = G }.
 
   (* ---- addp / addps keep everything but undefined_values *)
   Lemma addp_fields next gk r st :
@@ -105,7 +107,7 @@ Section FunInv.
 
   Lemma addp_FInv next gk bs is r st : FInv next gk bs is st -> wfr r -> FInv next gk bs is (addp f next gk r st).
   Proof.
-    intros [I1 I2 I3 I4 I5 I6 I7 I8 I9] Hr.
+    intros [I1 I2 I3 I4 I5 I6 I7 I8 I9 I10] Hr.
     destruct (addp_fields next gk r st) as (A & B & C & D & E & F).
     constructor; try congruence.
     - now apply addp_inv.
@@ -172,7 +174,7 @@ Section FunInv.
     rewrite (f_ins _ _ _ _ _ I1). rewrite open_ok by assumption. cbn [check bind].
     rewrite def_map_refs, Hd. cbn [check bind].
     eexists. split; [reflexivity|]. split.
-    - destruct I1 as [J1 J2 J3 J4 J5 J6 J7 J8 J9]. constructor; cbn; try assumption.
+    - destruct I1 as [J1 J2 J3 J4 J5 J6 J7 J8 J9 J10]. constructor; cbn; try assumption.
       + eapply SInv_fields; [..|exact J1]; reflexivity.
       + rewrite map_app. cbn [map]. now rewrite <- J5.
       + intros x s Hx Hs. unfold all_built in Hx. cbn in Hx.
@@ -250,7 +252,7 @@ Section FunInv.
     assert (Hbm : rs_bmap (addps f next gk (instr_uses i) st) = rs_bmap st) by apply addps_bmap.
     set (st1 := addps f next gk (instr_uses i) st) in *.
     set (i' := map_refs (hide next gk) i).
-    destruct I1 as [J1 J2 J3 J4 J5 J6 J7 J8 J9].
+    destruct I1 as [J1 J2 J3 J4 J5 J6 J7 J8 J9 J10].
     assert (Kn : known next gk (Loc next) = false) by (cbn; apply Pos.ltb_irrefl).
     assert (Cself : cov (rs_pend st1) (all_built st1 ++ [i'])).
     { intros x s Hx Hs. rewrite in_app_iff in Hx. destruct Hx as [Hx|[<-|[]]]; [now apply (J6 x s)|].
@@ -343,6 +345,7 @@ Section FunInv.
       apply premove_in in Hs. destruct (J8 s Hs) as (r & Hr & Er & Kr). exists r. repeat split; try assumption.
       apply unknown_succ; [assumption|]. intros ->. congruence.
     - intros x Hx. rewrite app_assoc in Hx. rewrite in_app_iff in Hx. destruct Hx as [Hx|[<-|[]]]; [now apply J9 | assumption].
+    - cbn. exact J10.
   Qed.
 
   (* ---- a run of instructions of one block.  [seq_ok bm bs is next l next']: the instructions l, read
@@ -412,13 +415,13 @@ Section FunInv.
     unfold get_block_ref. rewrite <- Hbm in Hbk. rewrite Hbk. cbn [bind].
     assert (I0 : FInv next gk bs [] (mk_rst (rs_glob st) (rs_loc st) (rs_infun st) (rs_pend st) (rs_next st)
                                             (rs_bmap st) (rs_funcs st) (rs_blocks st) [])).
-    { destruct I as [J1 J2 J3 J4 J5 J6 J7 J8 J9]. cbn [map] in J5. constructor; cbn; try assumption.
+    { destruct I as [J1 J2 J3 J4 J5 J6 J7 J8 J9 J10]. cbn [map] in J5. constructor; cbn; try assumption.
       - eapply SInv_fields; [..|exact J1]; reflexivity.
       - reflexivity.
       - intros x s Hx. apply (J6 x s). unfold all_built in *. cbn in Hx. now rewrite J5. }
     destruct (instrs_fold gk bs [] next (b_ins k) next' Hs _ js I0) as (st1 & E1 & I1 & B1); [exact Hbm | exact Wl |].
     rewrite E1. cbn [bind]. cbn [app] in I1.
-    destruct I1 as [J1 J2 J3 J4 J5 J6 J7 J8 J9].
+    destruct I1 as [J1 J2 J3 J4 J5 J6 J7 J8 J9 J10].
     assert (Enames : block_names_of (rs_blocks st1) ++ map def_name (instrs_defs (flat_map b_ins (rs_blocks st1) ++ rs_ins st1))
                      = map b_name bs ++ map def_name (instrs_defs (flat_map b_ins bs ++ b_ins k))).
     { rewrite J4, J5. unfold block_names_of, hb. rewrite flat_map_mapb, <- map_app, instrs_defs_map.
@@ -456,18 +459,18 @@ Lemma instr_roundtrip gn f vt fs next gk st i j :
   construct_instruction cfg_fixed vt j st = fin (map_refs (hide f next gk) i) (addps f next gk (instr_uses i) st).
 Proof. intros [A B C D E]. now apply read_instr. Qed.
 
-Lemma instr_step_nodef gn f vt fs next gk bs is st i j :
-  fun_ctx gn f vt fs -> FInv gn f fs next gk bs is st -> instr_def i = None ->
+Lemma instr_step_nodef gn f vt fs G next gk bs is st i j :
+  fun_ctx gn f vt fs -> FInv gn f fs G next gk bs is st -> instr_def i = None ->
   Forall (wfr gn f) (instr_uses i) -> ctor_ok_instr f i = true ->
   (forall b, In b (instr_targets i) -> blookup (block_name f b) (rs_bmap st) = Some b) ->
   forallb (fun x => negb (is_terminator x)) is = true ->
   write_instruction cfg_fixed f i = Ok j ->
-  exists st', construct_instruction cfg_fixed vt j st = Ok st' /\ FInv gn f fs next gk bs (is ++ [i]) st' /\
+  exists st', construct_instruction cfg_fixed vt j st = Ok st' /\ FInv gn f fs G next gk bs (is ++ [i]) st' /\
               rs_bmap st' = rs_bmap st.
 Proof. intros [A B C D E]. now apply step_nodef. Qed.
 
-Lemma instr_step_def gn f vt fs next gk bs is st i j n t :
-  fun_ctx gn f vt fs -> FInv gn f fs next gk bs is st -> instr_def i = Some (next, n, t) ->
+Lemma instr_step_def gn f vt fs G next gk bs is st i j n t :
+  fun_ctx gn f vt fs -> FInv gn f fs G next gk bs is st -> instr_def i = Some (next, n, t) ->
   wfr gn f (Loc next) -> ref_name f (Loc next) = n -> vref_ty f (Loc next) = t ->
   mem_str n (map b_name bs) = false ->
   Forall (wfr gn f) (instr_uses i) -> ctor_ok_instr f i = true ->
@@ -476,17 +479,17 @@ Lemma instr_step_def gn f vt fs next gk bs is st i j n t :
   forallb (fun x => negb (is_terminator x)) is = true ->
   write_instruction cfg_fixed f i = Ok j ->
   exists st', construct_instruction cfg_fixed vt j st = Ok st' /\
-              FInv gn f fs (Pos.succ next) gk bs (is ++ [i]) st' /\ rs_bmap st' = rs_bmap st.
+              FInv gn f fs G (Pos.succ next) gk bs (is ++ [i]) st' /\ rs_bmap st' = rs_bmap st.
 Proof. intros [A B C D E]. now apply step_def. Qed.
 
-Lemma block_roundtrip gn f vt fs bm gk bs k next next' st j :
+Lemma block_roundtrip gn f vt fs G bm gk bs k next next' st j :
   fun_ctx gn f vt fs ->
   seq_ok gn f bm bs [] next (b_ins k) next' ->
-  FInv gn f fs next gk bs [] st -> rs_bmap st = bm ->
+  FInv gn f fs G next gk bs [] st -> rs_bmap st = bm ->
   blookup (b_name k) bm = Some (b_id k) ->
   mem_str (b_name k) (map b_name bs ++ map def_name (instrs_defs (flat_map b_ins bs ++ b_ins k))) = false ->
   write_block cfg_fixed f k = Ok j ->
-  exists st', construct_block cfg_fixed vt j st = Ok st' /\ FInv gn f fs next' gk (bs ++ [k]) [] st' /\
+  exists st', construct_block cfg_fixed vt j st = Ok st' /\ FInv gn f fs G next' gk (bs ++ [k]) [] st' /\
               rs_bmap st' = bm.
 Proof. intros [A B C D E]. now apply block_read. Qed.
 
@@ -495,6 +498,7 @@ Definition nv_f : func := mk_func "pr" BGlobal None [] (fwd I32 [IUnop 1 "y" I32
 Definition nv_gn : list string := ["pr"].
 Definition nv_vt : list (string * ty) := [("y", I32); ("x", I32)].
 Definition nv_bm := number_blocks 1 ["entry"; "b1"; "b2"].
+Definition nv_G : vmap := [("pr", (Glob "pr", Ptr))].
 Definition nv_st : rst := mk_rst [("pr", (Glob "pr", Ptr))] [] true [] 1 nv_bm [] [] [].
 
 Lemma nv_wfr r : wfr nv_gn nv_f r -> r = Loc 1 \/ r = Loc 2 \/ r = Glob "pr".
@@ -528,7 +532,7 @@ Proof.
   - intros r H K. apply nv_wfr in H. destruct H as [->|[->| ->]]; try discriminate; reflexivity.
   - intros r t H P. discriminate.
 Qed.
-Lemma nv_finv : FInv nv_gn nv_f [] 1 nv_gn [] [] nv_st.
+Lemma nv_finv : FInv nv_gn nv_f [] nv_G 1 nv_gn [] [] nv_st.
 Proof.
   constructor; try reflexivity.
   - exact nv_sinv.
@@ -547,16 +551,16 @@ Lemma nv_blocks : exists j1 j2 st1 st2,
   construct_block cfg_fixed nv_vt j1 nv_st = Ok st1 /\
   write_block cfg_fixed nv_f (mk_block 2 "b1" [IUnop 1 "y" I32 Neg (Loc 2); IExit]) = Ok j2 /\
   construct_block cfg_fixed nv_vt j2 st1 = Ok st2 /\
-  FInv nv_gn nv_f [] 2 nv_gn [mk_block 1 "entry" [IJump 3]; mk_block 2 "b1" [IUnop 1 "y" I32 Neg (Loc 2); IExit]] [] st2 /\
+  FInv nv_gn nv_f [] nv_G 2 nv_gn [mk_block 1 "entry" [IJump 3]; mk_block 2 "b1" [IUnop 1 "y" I32 Neg (Loc 2); IExit]] [] st2 /\
   rs_pend st2 = [("x", I32)].
 Proof.
-  destruct (block_roundtrip nv_gn nv_f nv_vt [] nv_bm nv_gn [] (mk_block 1 "entry" [IJump 3]) 1 1 nv_st
+  destruct (block_roundtrip nv_gn nv_f nv_vt [] nv_G nv_bm nv_gn [] (mk_block 1 "entry" [IJump 3]) 1 1 nv_st
               nv_j1)
     as (st1 & E1 & I1 & B1); try reflexivity; try exact nv_ctx; try exact nv_finv.
   { apply so_nodef; try reflexivity; [constructor | | constructor].
     intros b [<-|[]]. reflexivity. }
 
-  destruct (block_roundtrip nv_gn nv_f nv_vt [] nv_bm nv_gn [mk_block 1 "entry" [IJump 3]]
+  destruct (block_roundtrip nv_gn nv_f nv_vt [] nv_G nv_bm nv_gn [mk_block 1 "entry" [IJump 3]]
               (mk_block 2 "b1" [IUnop 1 "y" I32 Neg (Loc 2); IExit]) 1 2 st1
               nv_j2)
     as (st2 & E2 & I2 & B2); try reflexivity; try exact nv_ctx; try assumption.
